@@ -202,6 +202,9 @@ Section Linear.
         | Some KNone => if existsb (fun b => b) outl then None else Some KNone
         | Some (KBits b) => if is_sub_mask outl b then Some (KBits b) else None
         end in
+      match am, down with
+      | None, None => ErrMeta                  (* 59-61: "Missing target mask specification" comes first *)
+      | _, _ =>
       match om1 with
       | None => ErrData
       | Some u =>
@@ -213,6 +216,7 @@ Section Linear.
                 let oc := sel (bits_of om) tpts in
                 Done om (unsel (bits_of om) (map (lin_cell ic cv) oc))
           end
+      end
       end.
 End Linear.
 
